@@ -588,11 +588,13 @@ def table2Of (j : Json) : R (String → String → Option String) := do
 
 open Edxml.Tpl in
 def opTemplate (j : Json) : R Json := do
-  let toks ← match j.getObjVal? "template" with
-    | .ok (Json.str t) => pure (tokenize t)
-    | _ => toksOf (← fldArr j "nodes")
   let et : EType := { props := ← (← fldArr j "props").mapM (pairOf str str), attachments := ← fldStrs j "attachments" }
-  let valid := validate et toks
+  -- a template string is validated the way Template.validate does (whole string), a syntax tree by its tokens
+  let (toks, valid) ← match j.getObjVal? "template" with
+    | .ok (Json.str t) => pure (tokenize t, validateStr et t)
+    | _ => do
+      let toks ← toksOf (← fldArr j "nodes")
+      pure (toks, validate et toks)
   let outs ← (← fldArr j "envs").mapM fun e => do
     let shown ← tableOf (← fld e "shown")
     let raw ← tableOf (← fld e "raw")
